@@ -974,7 +974,8 @@ fn cmd_gencheck() -> i32 {
                 flag: rng.chance(1, 3),
                 whole: false,
             };
-            let size = rng.below(3);
+            // mostly the small classes, some huge (3) and long-token (4) documents
+            let size = if i % 40 == 0 { 3 + (i / 40 % 2) as usize } else { rng.below(3) };
             let d = gen::valid(&mut rng, &cfg, size);
             let src = source::SimSource::new(Rc::new(d.bytes.clone()), source::SourceCfg::one_shot());
             let t = transcript(&cfg, &Ctor::default_one_shot(), src, 0);
